@@ -188,6 +188,8 @@ LFOR:
 					p.parseErr("expect , or }")
 				}
 			}
+		default:
+			p.parseErr("not expect " + token.Value(p.tk.T))
 		}
 	}
 	p.expect(token.Semi)
